@@ -77,7 +77,12 @@ META = {
     "note": "Two open findings (order_config moves unmentioned negated rows first; tied commands follow the diff's "
             "positional order). The theorems are about the model; "
             "the tie to the code is differential testing bounded by the generator. Rules matched ambiguously are not "
-            "ranked by the reference. %multiline, comments and vendor %logic functions are not modelled.",
+            "ranked by the reference. %multiline, comments and vendor %logic functions are not modelled. Shipped *.order "
+            "texts: parsed by Coq from the raw lines (Gen/Src_rules.v) and compared with the real compiled ordering rulebook on "
+            "every run; C08_rank's guard (pairwise disjoint sibling languages) is NOT established for them: a conservative "
+            "literal-word test lists the sibling pairs it cannot separate (evidence: shipped_rules.order_sibling_overlaps; the "
+            "list is complete, C08_shipped_overlaps_complete); that the test itself is conservative for the pattern model is "
+            "stated only (C08_overlap_test_sound_statement).",
 }
 IMPORTS = P.PIPE_IMPORTS + "\nFrom Annet Require Import Spec.P_C03 Spec.P_C08 Spec.P_C08meta."
 
@@ -392,6 +397,11 @@ def run(ctx):
         "order_cfg_rows_total": sum(tree_rows(cases[i]["order_cfg"]) for i in keep),
         "violations_by_signature": per_sig,
     })
+    # shipped *.order texts (Gen/Src_rules.v): Coq-parsed vs real compiled ordering rulebook, and the sibling pairs
+    # the conservative literal-word test cannot separate (C08_rank asks for pairwise disjoint sibling languages)
+    from .. import shipped
+    ctx.coverage["shipped_rules"] = {"correspondence": shipped.correspondence(ctx, ID),
+                                     "order_sibling_overlaps": shipped.overlap_tables(ID)}
     ctx.assumptions += [
         "list.sort/sorted are stable sorts (CPython guarantee); the model uses stable insertion sort, which "
         "C08_stable_sort_unique shows is the only sorted stable permutation",
